@@ -140,7 +140,7 @@ def gen_cases(log, rng, exhaustive):
             for _ in range(4 if iso == RC else 2):
                 f = rng.choice(offs) if rng.random() < 0.8 else rng.randint(0, log.leo + 1)
                 nb = len(log.response(bound, f, 10**6))
-                k = rng.choice([nb, nb, 10**3, rng.randint(0, nb), 1])
+                k = rng.choice([nb, nb, nb + 3, rng.randint(0, nb), 1])    # nb + 3: room for more than there is
                 resp = log.response(bound, f, k)
                 cases.append({"iso": iso, "f": f, "k": k, "idx": make_idx(log, rng, iso, f, resp),
                               "trunc": rng.choice([0, 0, 0, 1, 17, 61, 70])})
@@ -187,17 +187,18 @@ COQ_PRELUDE = (
 
 
 def coq_body(entries):
-    """entries: [(ops, cases, seqs)] with seqs = [(iso, f0, [(k, idx)...])]"""
+    """entries: [(ops, cases, seqs)] with seqs = [(iso, f0, [(k, idx)...])].  One Eval per log; its
+    value prints as the 6-tuple (valid, lso, hw, #batches, [case results], [sequence results])."""
     L = [COQ_PRELUDE]
     for n, (ops, cases, seqs) in enumerate(entries):
-        L.append(f"Definition s{n} := build {coq_list(ops, coq_op)}.\n")
-        L.append(f"Eval vm_compute in (forallb valid_op {coq_list(ops, coq_op)}, lso s{n}, hw s{n}, "
-                 f"Z.of_nat (List.length (batches s{n}))).\n")
         cs = coq_list(cases, lambda c: f"({coq_iso(c['iso'])}, {coq_Z(c['f'])}, {min(c['k'], 5000)}%nat, {coq_idx(c['idx'])})")
-        L.append(f"Eval vm_compute in (map (run1 s{n}) ({cs} : list (iso * Z * nat * list (Z * Z)))).\n")
         ss = coq_list(seqs, lambda q: f"({coq_iso(q[0])}, {coq_Z(q[1])}, "
                       + coq_list(q[2], lambda st: f"({st[0]}%nat, {coq_idx(st[1])})") + ")")
-        L.append(f"Eval vm_compute in (map (runs s{n}) ({ss} : list (iso * Z * list (nat * list (Z * Z))))).\n")
+        L.append(f"Definition o{n} := {coq_list(ops, coq_op)}.\n")
+        L.append(f"Eval vm_compute in (let s := build o{n} in (forallb valid_op o{n}, lso s, hw s, "
+                 f"Z.of_nat (List.length (batches s)), "
+                 f"map (run1 s) ({cs} : list (iso * Z * nat * list (Z * Z))), "
+                 f"map (runs s) ({ss} : list (iso * Z * list (nat * list (Z * Z)))))).\n")
     return "".join(L)
 
 
@@ -386,7 +387,7 @@ def run(ck: Check):
     for _ in range(n_logs):
         ops = gen.ops(rng.choice([6, 10, 14, 20]), 4)
         log = Log(ops)
-        entries.append((ops, log, gen_cases(log, rng, False), gen_seqs(log, rng, ck.n(1, 2)), False))
+        entries.append((ops, log, gen_cases(log, rng, False), gen_seqs(log, rng, 1), False))
     consume_cases = []
     for _ in range(ck.n(150, 1500)):
         q = [[rng.choice(PIDS), rng.randint(0, 12)] for _ in range(rng.randint(0, 6))]
@@ -524,12 +525,13 @@ def run(ck: Check):
                 coq_detail = outc[-600:]
                 break
             vals = [parse_coq_value(v) for v in parse_eval_outputs(outc)]
-            if len(vals) != 3 * len(shards[i]):
+            if len(vals) != len(shards[i]) or any(len(v) != 6 for v in vals):
                 coq_ok = False
                 coq_detail = f"shard {i}: {len(vals)} values for {len(shards[i])} logs"
                 break
             for j in range(len(shards[i])):
-                model[i + j * nsh] = vals[3 * j: 3 * j + 3]
+                v = vals[j]
+                model[i + j * nsh] = [tuple(v[:4]), v[4], v[5]]
 
     ck.log(f"model evaluated inside Coq ok={coq_ok}  [{time.time() - ck.t0:.1f}s]")
     results = fut_real.result()
